@@ -1,8 +1,9 @@
 (* pins for C20: statements of the property theorems as of the time of pinning *)
 From Coq Require Import NArith ZArith List Bool Arith.
 From Blue Require Import Gen.Const_Stall Lsm.Model Stall.Select Stall.Known Stall.Proto
-  Stall.ProofsBounds Stall.ProofsAdm Stall.ProofsNext Stall.ProofsTotal Stall.ProofsStall Stall.ProofsRelief Stall.ProofsProto Stall.ProofsMeasure Stall.ProofsProgress.
-From Blue Require Lsm.History Stall.EndToEnd.
+  Stall.ProofsBounds Stall.ProofsAdm Stall.ProofsNext Stall.ProofsTotal Stall.ProofsStall Stall.ProofsRelief Stall.ProofsProto Stall.ProofsMeasure Stall.ProofsProgress Stall.ProofsConcMeasure.
+From Blue Require Lsm.History Stall.EndToEnd Lsm.ModelConcurrent Lsm.ConcStable.
+From Blue Require Import Lsm.LoadProofs.
 Import ListNotations.
 Open Scope N_scope.
 From Blue Require Import Stall.Props_C20.
@@ -24,6 +25,8 @@ Check C20_compute_bounds_fuel : forall lv fk lk, widen (widen_fuel lv) lv (lower
 Check C20_ingest_keeps_stall : forall o v f, v <> [] -> should_stall_ingest o v = true -> should_stall_ingest o (ingest v f) = true.
 Check C20_compaction_lowers_measure : forall o v og out c outs, sel_wfb v = true -> next_compaction o v og = Ok out -> nc_choice out = Some c -> (ec outs <= in_entries v (cc c))%nat -> (mu (apply_compaction v (cc c) outs) < mu v)%nat.
 Check C20_admissible_compaction_lowers_measure : forall v c outs, valid_compactionb v c = true -> (ec outs <= in_entries v c)%nat -> ec (concat (map (filter (is_input c)) (mids v c))) <> 0%nat -> (mu (apply_compaction v c outs) < mu v)%nat.
+Check C20_concurrent_apply_keeps_what_lowers_measure : forall v c d outs, wf_version v -> wf_version (apply_compaction v d outs) -> valid_compactionb v c = true -> valid_compactionb v d = true -> Lsm.ModelConcurrent.conflictb c d = false -> (forall o, In o outs -> is_input c o = false /\ key_leb (cfirst d) (first_key o) = true /\ key_leb (last_key o) (clast d) = true) -> ec (concat (map (filter (is_input c)) (mids (apply_compaction v d outs) c))) = ec (concat (map (filter (is_input c)) (mids v c))).
+Check C20_ingest_keeps_what_lowers_measure : forall v c f, v <> [] -> l0_order (hd [] v ++ [f]) = f :: l0_order (hd [] v) -> valid_compactionb v c = true -> is_input c f = false -> ec (concat (map (filter (is_input c)) (mids (ingest v f) c))) = ec (concat (map (filter (is_input c)) (mids v c))).
 Check C20_compaction_runs_are_bounded_sequential : forall o n v v', crun o n v v' -> (n + mu v' <= mu v)%nat.
 Check C20_tables_cover_levels : len level_curve_tbl = STALL_NUM_LEVELS /\ len level_factor_tbl = STALL_NUM_LEVELS.
 Check C20_no_lost_wakeup_compact_refuted_before_repair : exists s, steps false ex_opts_default (init ex_tree_stalled 1 1) s /\ all_parked s /\ sel_wfb (p_v s) = true /\ known_stall ex_opts_default (p_v s) = false /\ exists out c, next_compaction ex_opts_default (p_v s) [] = Ok out /\ nc_choice out = Some c.
